@@ -85,6 +85,17 @@ def values():
         V.append(("sympy-lookalike-names", str(v), lambda v=v: v))
     for v in (sym.sqrt(a), sym.sin(a) + 1, sym.exp(-a) * b):
         V.append(("sympy-function", str(v), lambda v=v: v))
+    # sweep values (each used singly in every position, not in the pair families): floats at and around values a
+    # serialiser might prettify or round; strings with characters that are legal inside a Blackbird string literal
+    # (anything but a double quote, CR and LF) and special to something else: other line-boundary characters of
+    # str.splitlines, tabs, backslashes, comment and bracket characters, non-ASCII text, look-alikes of other tokens
+    from bbv.model import alphabet as A_
+    for t in A_.near_special_floats():
+        V.append(("sweep-float", t, lambda t=t: float(t)))
+        V.append(("sweep-float", "-" + t, lambda t=t: -float(t)))
+    for v in ("a\x0bb", "a\x0cb", "a\x1cb", "a\x1db", "a\x1eb", "a\x85b", "a\u2028b", "a\u2029b", "tab\there", "back\\slash", "ends with \\", "caf\u00e9 \u03c0", "\U0001f642",
+              "a#b", "trailing ", " leading", "'single'", "semi;colon", "{brace}", "[1, 2]", "(x)", "q0", "pi", "sqrt(2)", "1e3", "-1", "None", "name", "for", "a | 0", "k=v", "A0"):
+        V.append(("sweep-str", repr(v), lambda v=v: v))
     return V
 
 
@@ -187,6 +198,16 @@ def judge(spec):
         d = [x for x in d if not x.startswith("parameters")]
     if d:
         return (key("differs", equiv.classify(d)), "; ".join(d)[:300] + " ;; " + t[-200:])
+    if spec.get("file"):
+        # the file interface (dump into one working file per worker, load it back) must give what the string route gives
+        fr = common.file_route(make(spec))
+        if fr[0] == "exc":
+            return (key("file-route-%s-raises" % fr[2], type(fr[1]).__name__ + ":" + common.msgclass(fr[1])), common.exc_sig(fr[1]) + " ;; " + t[-200:])
+        if fr[2] != t:
+            return (key("file-route-text-differs"), "dumps %r ;; file %r" % (t[-150:], fr[2][-150:]))
+        d = equiv.prog_equiv(q, fr[1])
+        if d:
+            return (key("file-route-differs", equiv.classify(d)), "; ".join(d)[:300] + " ;; " + t[-200:])
     return None
 
 
@@ -198,7 +219,8 @@ def build(ctx):
     V = _values()
     n = len(V)
     idx = list(range(n))
-    scalars = [i for i in idx if not V[i][0].startswith(("list", "array"))]
+    scalars = [i for i in idx if not V[i][0].startswith(("list", "array", "sweep"))]
+    sweep = [i for i in idx if V[i][0].startswith("sweep")]
     lists = [i for i in idx if V[i][0].startswith("list")]
     arrays = [i for i in idx if V[i][0].startswith("array")]
     specs = []
@@ -216,6 +238,11 @@ def build(ctx):
     for i in scalars + lists + arrays[:3]:
         add("target option", {"target": ("X8_01", [("o", i)]), "ops": [{"op": "G", "noargs": True, "modes": [0]}]})
         add("type option", {"type": ("tdm", [("o", i)]), "ops": [{"op": "G", "args": [1], "modes": [0]}]})
+    for i in sweep:
+        add("sweep: every position", {"target": ("g", [("o", i)]), "type": ("t", [("p", i)]), "ops": [{"op": "G", "args": [i, 1], "kwargs": [("k", i)], "modes": [0]}], "file": True})
+        add("sweep: alone", {"ops": [{"op": "G", "args": [i], "modes": [0]}]})
+    for i in scalars + lists + arrays[::5]:
+        add("file route", {"target": ("g", [("o", i if i not in arrays else 0)]), "ops": [{"op": "G", "args": [i] if i not in lists else [1], "kwargs": [("k", i)], "modes": [1, 0]}], "file": True})
     step = 1
     for i, j in itertools.product(scalars[::step] + arrays[::4], repeat=2):
         add("2 positional", {"ops": [{"op": "G", "args": [i, j], "modes": [1, 0], "npmodes": True}]})
@@ -243,6 +270,7 @@ def build(ctx):
 
 
 def run(ctx):
+    common.SCRATCH = ctx.scratch
     specs, fam = build(ctx)
     specs = common.shard(specs, ctx.seed)
     res = pool.pmap(_case, specs, chunk=40)
@@ -257,8 +285,9 @@ def run(ctx):
     cov = {"evaluations": len(specs), "distinct_nontrivial": nontrivial,
            "rule": "programs assembled from the value alphabet (%d values: Python/NumPy ints, floats, complex incl. negative zero, subnormals, 1e+-300, int64 extremes; booleans; quote-free strings; lists of each kind and mixed; "
                    "int/float/complex arrays 1x1..3x3 + edge arrays; 17 real SymPy expressions over overlapping parameter names + 3 with functions) in every position (positional, keyword, target option, type option), "
-                   "all pairs (quick: every 3rd scalar), lists x lists as keywords and options, mode lists as ints and np.int64, with/without args keys, pairs of arrays x 4 metadata variants; thorough adds 3-operation programs. "
-                   "non-trivial = program with >= 1 argument; all specs distinct by construction" % len(V),
+                   "all pairs, %d sweep values (floats at and around pi multiples / e / 1 / 1/3 / sqrt 2 / powers of ten; strings with line-boundary, control, non-ASCII and token look-alike characters) singly in every position, "
+                   "the file interface (dump into / load from one working file per worker) for every value, lists x lists as keywords and options, mode lists as ints and np.int64, with/without args keys, pairs of arrays x 4 metadata variants; thorough adds 3-operation programs. "
+                   "non-trivial = program with >= 1 argument; all specs distinct by construction" % (len(V), sum(1 for v in V if v[0].startswith("sweep"))),
            "samples": [describe(s) for s in common.sample(specs, 5)], "exhaustive": True, "by_family": dict(fam), "value_alphabet": len(V)}
     return {"coverage": cov, "violations": Vs.records(),
             "assumptions": ["operations carry either both 'args' and 'kwargs' or neither (as documented for BlackbirdProgram.operations)", "strings are quote-free"]}
